@@ -355,7 +355,9 @@ func vfC14Merge(env *vfc.Env, id string, r *ref.Rand, dir string, maxItems int) 
 		var its []ref.HintItem
 		for _, j := range r.Perm(len(pool))[:n] {
 			it := pool[j]
-			it.Offset = uint32(256 * r.Intn(100000))
+			// (a later hint split of the same file describes records further on in that file: offsets of
+			// different splits never coincide - equal (file, offset) with different contents cannot exist)
+			it.Offset = uint32(256 * (i*100000 + r.Intn(100000)))
 			it.Ver = int32(r.Range(1, 50))
 			if r.Intn(6) == 0 {
 				it.Ver = -it.Ver
